@@ -68,7 +68,7 @@ inline Plan Gen(uint64_t seed)
          p.push_back(sendPfx + "unsub " + I(g.opid++) + " " + Esc(pat));
       }
       else if (k < 66) p.push_back(sendPfx + "priv " + I(wl.below(5)) + " " + Esc(wl.oneIn(2) ? std::string("*") : ("/*/" + I(wl.below(5)))));     // KICK / bans / requires without privilege
-      else if ((k < 68)&&(wl.oneIn(2))) {static const char * rf[] = {"!N2G", "!G2N"}; const char * f = rf[wl.below(2)]; p.push_back(sendPfx + (wl.oneIn(2) ? (std::string("param ") + f + " 1") : (std::string("rmparam ") + Esc(f))));}   // the rarely touched routing-flag parameters, set and removed: none of them may stop subscription updates from reaching the session
+      else if ((k < 68)&&(wl.oneIn(2))) {static const char * rf[] = {"!N2G", "!G2N"}; const char * f = rf[wl.below(2)]; if (wl.oneIn(2)) p.push_back(sendPfx + "param " + f + " 1"); if (wl.oneIn(2)) GenPump(p, g, wl); if (wl.pct(70)) p.push_back(sendPfx + "rmparam " + Esc(f));}   /* a flag can only be removed once it has been set as a parameter, so mostly: set, then remove */   // the rarely touched routing-flag parameters, set and removed: none of them may stop subscription updates from reaching the session
       else if (k < 68) p.push_back(sendPfx + "setpriv " + I(wl.oneIn(2) ? -1 : (int) wl.below(8)));                                                   // trying to grant oneself privileges
       else if (k < 70) {if (wl.oneIn(2)) {p.push_back(sendPfx + "unsuball " + I(g.opid++)); g.intent[c].clear();} else p.push_back(sendPfx + "rmparamw " + Esc(wl.oneIn(2) ? "!Mx*" : "?Mx??"));}   // wildcard parameter removal (own parameters only)
       else if (k < 82)
